@@ -1,8 +1,5 @@
 package c19
 
-func didEntries(h *harness) []*entry    { return nil }
-func cryptoEntries(h *harness) []*entry { return nil }
-func vcrEntries(h *harness) []*entry    { return nil }
-func v2Protocol(h *harness)             {}
-func httpNode(h *harness)               {}
-func v2Worker(args []string) int        { return 0 }
+func v2Protocol(h *harness)      {}
+func httpNode(h *harness)        {}
+func v2Worker(args []string) int { return 0 }
